@@ -1022,7 +1022,9 @@ fn collapse_blanks(text: &str) -> String {
     let mut lines: Vec<&str> = Vec::new();
     let mut prev_blank = true; // seeded true so leading blank lines are dropped
     for line in text.lines() {
-        let blank = line.trim().is_empty();
+        // The printer has already stripped trailing spaces and tabs, so a blank line is empty: a
+        // line of other white space is text of a multi-line string, which must be kept.
+        let blank = line.trim_matches([' ', '\t']).is_empty();
         if blank && prev_blank {
             continue;
         }
